@@ -109,7 +109,10 @@ pub fn check(cx: &Cx, rep: &mut Report) {
             rep.premise(key);
             rep.count(&format!("hk_pair.{:?}->{:?}", m1.hk, m2.hk), 1);
             let e2s = ix.invs[*e2].i;
+            let unique = ix.task_of(m1.tag).is_some();
             match ix.inv_of.get(&m1.msg).and_then(|v| v.first()) {
+                None if !unique => {}
+                Some(e1) if !unique && ix.invs[*e1].actor != ix.invs[*e2].actor => {}
                 None => {
                     // the same actor incarnation chain? a restart does not drop messages, so m1 must be handled
                     rep.fail(P, "R3", format!("order=missing;p1={:?};p2={:?}", m1.path, m2.path), format!("msg {} (op c{}#{} {:?} via {:?}, completed at #{r1}) was never handled although msg {} (begun later at #{}) was handled at #{e2s}", m1.msg, m1.c, m1.i, m1.op, m1.hk, m2.msg, m2.b), vec![m1.b, r1, m2.b, e2s]);
